@@ -206,7 +206,9 @@ HostilePkts(cls, key) ==
     [] cls = "delim"    -> SplitJunk("s", TRUE)
     [] cls = "chanlist" -> <<Small("hchan", 0, 0, FALSE, "", TRUE)>>
     [] cls = "vforge"   -> <<Small("reply", FirstSent, -1, FALSE, "", TRUE)>>
-    [] cls = "meta"     -> <<Small("hcall", 0, 0, FALSE, key, TRUE)>>
+    [] cls = "meta"     -> IF key = "value" /\ "valuekey" \in Dev
+                           THEN <<Small("junk", 0, 0, FALSE, "", TRUE)>>   \* contains the text "value": - taken for a value packet
+                           ELSE <<Small("hcall", 0, 0, FALSE, key, TRUE)>>
 
 (* whoever sits at the far end of the B->A connection writes a hostile packet *)
 Hostile(cls, key) ==
